@@ -2,6 +2,7 @@
    receive handlers catch.  Compositional: `Safe x` = every error of `x` is caught. -/
 import SmppVerif.Model.PduDecode
 import SmppVerif.Model.Receipt
+import SmppVerif.Model.Receiver
 
 namespace SmppVerif.Lemmas.Classes
 open SmppVerif SmppVerif.Pdu
@@ -367,5 +368,149 @@ theorem safe_fromSmpp (s : List Nat) : Safe (fromSmpp s) := by
               · exact safe_ok _
               · exact safe_err _ trivial
     all_goals (intro e' h'; cases h'; exact safe_pyInt _ _ (by assumption))
+
+/-! ### from_pdu -/
+
+theorem safe_smValidate (m : Sm) : Safe (smValidate m) := by
+  unfold smValidate
+  repeat' split
+  all_goals first | exact safe_ok _ | exact safe_err .valueError trivial
+
+theorem safe_ite {α} (c : Prop) [Decidable c] (a b : Except Exc α) (ha : Safe a) (hb : Safe b) :
+    Safe (if c then a else b) := by split <;> assumption
+
+macro "safe_step" : tactic => `(tactic| first
+  | exact safe_pure _
+  | exact safe_ok _
+  | exact safe_getCStr _ _
+  | exact safe_getInt _ _ _
+  | exact safe_enumVal _ _
+  | exact safe_checkLen _ _
+  | exact safe_encOfDataCoding _
+  | exact safe_decodeMessage _ _ _
+  | exact safe_tlvLoop _ _ _ _ _ _ _ _
+  | exact safe_fromSmpp _
+  | exact safe_smValidate _
+  | exact safe_unpackU _ _ _
+  | exact safe_indexNul _ _
+  | exact safe_decodeAscii _
+  | exact safe_err _ trivial
+  | apply safe_bind
+  | apply safe_map
+  | apply safe_fmap
+  | apply safe_ite
+  | intro _
+  | split)
+
+theorem safe_smFromPdu (pdu : List Nat) (h : Header) (dflt : Enc) : Safe (smFromPdu pdu h dflt) := by
+  unfold smFromPdu
+  repeat' safe_step
+
+theorem safe_bindFromPdu (pdu : List Nat) (h : Header) : Safe (bindFromPdu pdu h) := by
+  unfold bindFromPdu
+  repeat' safe_step
+
+theorem safe_bindRespFromPdu (pdu : List Nat) (h : Header) : Safe (bindRespFromPdu pdu h) := by
+  unfold bindRespFromPdu
+  repeat' safe_step
+
+theorem safe_smRespFromPdu (pdu : List Nat) (h : Header) : Safe (smRespFromPdu pdu h) := by
+  unfold smRespFromPdu
+  repeat' safe_step
+
+theorem safe_fromPdu (pdu : List Nat) (h : Header) (dflt : Enc) : Safe (fromPdu pdu h dflt) := by
+  unfold fromPdu
+  split <;> first
+    | exact safe_map _ _ (safe_smFromPdu _ _ _)
+    | exact safe_map _ _ (safe_smRespFromPdu _ _)
+    | exact safe_map _ _ (safe_bindFromPdu _ _)
+    | exact safe_map _ _ (safe_bindRespFromPdu _ _)
+    | exact safe_ok _
+    | exact safe_err _ trivial
+
+theorem safe_decode (pdu : List Nat) (dflt : Enc) : Safe (decode pdu dflt) := by
+  unfold decode
+  split
+  · rename_i e he; exact safe_err _ (safe_parseHeader _ e he)
+  · exact safe_fromPdu _ _ _
+
+/-! ### receipt text -/
+
+theorem safe_strptime (v : List Nat) : Safe (Receipt.strptime v) := by
+  unfold Receipt.strptime
+  repeat' (first | split | (dsimp only; split))
+  all_goals first | exact safe_ok _ | exact safe_err .valueError trivial
+
+theorem safe_convert (k v : List Nat) : Safe (Receipt.convert k v) := by
+  unfold Receipt.convert
+  split
+  · exact safe_map _ _ (safe_pyInt _)
+  · split
+    · exact safe_strptime _
+    · exact safe_ok _
+
+theorem safe_scanLoop : ∀ (fuel : Nat) (rest : List Nat) (acc : Receipt.RDict), Safe (Receipt.scanLoop fuel rest acc)
+  | 0, _, _ => safe_ok _
+  | fuel + 1, rest, acc => by
+    unfold Receipt.scanLoop
+    split
+    · exact safe_ok _
+    · split
+      · rename_i e he; exact safe_err _ (safe_convert _ _ e he)
+      · exact safe_scanLoop fuel _ _
+
+theorem safe_receipt_parse (esm : Nat) (text : List Nat) (tlv : Option (List Nat)) : Safe (Receipt.parse esm text tlv) := by
+  unfold Receipt.parse
+  split
+  · exact safe_ok _
+  · split
+    · rename_i e he; exact safe_err _ (safe_scanLoop _ _ _ e he)
+    · exact safe_ok _
+
+open SmppVerif.Receiver in
+theorem safe_parseBody (pdu : List Nat) (h : Header) (dflt : Enc) : Safe (parseBody pdu h dflt) := by
+  unfold parseBody
+  split
+  · rename_i e he; exact safe_err _ (safe_fromPdu _ _ _ e he)
+  · split
+    · rename_i e he; exact safe_err _ (safe_receipt_parse _ _ _ e he)
+    · exact safe_ok _
+  · exact safe_ok _
+
+/-! ### the handlers absorb every class the decoder can raise -/
+
+open SmppVerif.Receiver in
+/-- every class the decoder model raises — apart from the stand-in for codecs outside the model —
+    is an instance of a class named in the handlers' except clauses (regenerated from esme.py) -/
+theorem caught_by_handlers : ∀ e : Exc, Caught e → e ≠ .runtimeError →
+    caughtBy Gen.Catch.handleRequest e = true ∧ caughtBy Gen.Catch.handleResponse e = true := by
+  intro e h hne
+  cases e <;> simp only [Caught] at h <;> first | exact absurd rfl hne | decide +kernel
+
+open SmppVerif.Receiver in
+/-- `_get_pdu` hands parse_header exactly the 16 octets readexactly returned: the only failure is
+    ValueError (unknown command id or status), which `_end_task` tolerates and the connect cycle of
+    start() turns into a reconnect -/
+theorem header_errors_tolerated (b : List Nat) (hb : 16 ≤ b.length) (e : Exc) (h : parseHeader b = .error e) :
+    e = .valueError ∧ caughtBy Gen.Catch.endTask e = true ∧ caughtBy Gen.Catch.startCycle e = true := by
+  unfold parseHeader at h
+  split at h
+  · split at h
+    · cases h; exact ⟨rfl, by decide +kernel⟩
+    · split at h
+      · cases h; exact ⟨rfl, by decide +kernel⟩
+      · cases h
+  · rename_i hno
+    exfalso
+    have u : ∀ o, o + 4 ≤ 16 → ∃ v, unpackU 4 b o = .ok v := by
+      intro o ho
+      unfold unpackU
+      rw [if_pos (by omega)]
+      exact ⟨_, rfl⟩
+    obtain ⟨v0, h0⟩ := u 0 (by decide)
+    obtain ⟨v4, h4⟩ := u 4 (by decide)
+    obtain ⟨v8, h8⟩ := u 8 (by decide)
+    obtain ⟨v12, h12⟩ := u 12 (by decide)
+    exact hno v0 v4 v8 v12 h0 h4 h8 h12
 
 end SmppVerif.Lemmas.Classes
